@@ -138,6 +138,7 @@ func (fv *FV) skolemizeGoal(phi string) (decls, hyps []string, rest string, ok b
 		return nil, nil, phi, false
 	}
 	intSk := map[string]bool{}
+	inv := map[string]string{} // skolem constant -> the bound variable it replaced
 	for {
 		switch {
 		case n.isCall("forall", 3) && n.list[1].list != nil:
@@ -150,12 +151,30 @@ func (fv *FV) skolemizeGoal(phi string) (decls, hyps []string, rest string, ok b
 				name := fmt.Sprintf("sk!%s!%d", strings.NewReplacer("?", ".", "|", "").Replace(b.list[0].atom), fv.skolemCount)
 				decls = append(decls, fmt.Sprintf("(declare-const %s %s)", name, b.list[1].String()))
 				m[b.list[0].atom] = name
+				inv[name] = b.list[0].atom
 				if b.list[1].String() == "Int" {
 					intSk[name] = true
 				}
 			}
 			body := n.list[2]
 			if body.list != nil && len(body.list) >= 2 && body.list[0].list == nil && body.list[0].atom == "!" {
+				// the goal's own trigger terms, at the skolem constants, stay in the query as arguments of an
+				// uninterpreted marker: a hypothesis with the same trigger is then instantiated exactly there, even
+				// when the conjunct being proved does not mention the term (`w[a] < w[b]` under trigger {ret[a], ret[b]})
+				for i := 2; i+1 < len(body.list); i += 2 {
+					if body.list[i].atom != ":pattern" || body.list[i+1].list == nil {
+						continue
+					}
+					for _, t := range body.list[i+1].list {
+						srt, ok := fv.trigSorts[t.subst(inv).String()]
+						if !ok {
+							continue
+						}
+						mark := "keep$" + cleanName(srt)
+						fv.declare(mark, fmt.Sprintf("(declare-fun %s (%s) Bool)", mark, srt))
+						hyps = append(hyps, "("+mark+" "+t.subst(m).String()+")")
+					}
+				}
 				body = body.list[1] // drop the pattern annotation
 			}
 			n = body.subst(m)
@@ -170,28 +189,10 @@ func (fv *FV) skolemizeGoal(phi string) (decls, hyps []string, rest string, ok b
 	return decls, hyps, n.String(), true
 }
 
-// guardEqs rewrites, inside the conjunctions of a hypothesis, an equation between an integer skolem constant and a
-// term into two inequalities: an equation would be solved and substituted by the solvers' preprocessing, and
-// `(+ off (+ a 1))` is then flattened into a sum that no pattern `(+ off b)` matches.
+// guardEqs used to rewrite `sk = term` into a shape the solvers' preprocessing would not substitute (so that
+// `(+ off sk)` kept matching patterns `(+ off b)`); element addresses are now `(at$ off k)` (fv.go), whose patterns
+// match whatever the index term looks like, and the equation is left as it is.
 func guardEqs(n *sx, intSk map[string]bool) *sx {
-	if n.list == nil || len(n.list) == 0 || n.list[0].list != nil {
-		return n
-	}
-	switch n.list[0].atom {
-	case "and":
-		out := &sx{list: []*sx{n.list[0]}}
-		for _, c := range n.list[1:] {
-			out.list = append(out.list, guardEqs(c, intSk))
-		}
-		return out
-	case "=":
-		if len(n.list) == 3 {
-			a, b := n.list[1], n.list[2]
-			if (a.list == nil && intSk[a.atom]) || (b.list == nil && intSk[b.atom]) {
-				return &sx{list: []*sx{{atom: "and"}, {list: []*sx{{atom: "<="}, a, b}}, {list: []*sx{{atom: ">="}, a, b}}}}
-			}
-		}
-	}
 	return n
 }
 
